@@ -200,6 +200,8 @@ type refOpts struct {
 	// builds one over a file) instead of the recording sink itself; > 1: every sinkLogger-th write of that
 	// logger reports an error after the line was taken
 	sinkLogger int
+	// viaFile: the document is loaded from a file with Load(path), not handed to Unmarshal
+	viaFile bool
 }
 
 func startRef(cfg cfggen.Config, o refOpts) (*refEnv, error) {
@@ -220,7 +222,7 @@ func startRefDoc(doc []byte, o refOpts) (*refEnv, error) {
 	if o.quiet {
 		lg = refsrv.NopLogger{}
 	}
-	ro := refsrv.Options{Logger: lg, Sink: e.sink, Keychain: o.keychain, Format: o.format}
+	ro := refsrv.Options{Logger: lg, Sink: e.sink, Keychain: o.keychain, Format: o.format, ViaFile: o.viaFile}
 	if o.sinkLogger > 0 {
 		e.sink.failEvery = o.sinkLogger
 		ro.Sink = log.New(e.sink, "", 0)
